@@ -57,9 +57,9 @@ pub enum Case {
     Wrapper { custom: bool, base_empty: bool, steps: Vec<WStep> },
     /// AppBuilder with components of the default types carrying distinguishable values
     Builder { steps: Vec<BStep> },
-    /// AppBuilder with recording components of other types, in one of the compiled orders,
-    /// with with_block steps inserted at seeded positions
-    Typed { order: u8, block_at: Vec<bool>, block: u64 },
+    /// AppBuilder with recording components of other types, in one of the compiled orders, with
+    /// with_block (bit 1), with_api (bit 2) and with_storage (bit 4) steps inserted at seeded positions
+    Typed { order: u8, extra_at: Vec<u8>, block: u64 },
 }
 
 pub struct BuildSim;
@@ -381,12 +381,21 @@ struct Tagged {
 }
 
 macro_rules! typed_build {
-    ($t:expr, $blocks:expr, $blk:expr; $($step:ident),*) => {{
+    ($t:expr, $extra:expr, $blk:expr; $($step:ident),*) => {{
         let b = BasicAppBuilder::<SimMsg, SimQuery>::new_custom();
         let mut i = 0usize;
         $(
             let b = typed_build!(@step b, $t, $step);
-            let b = if $blocks.get(i).copied().unwrap_or(false) { b.with_block(block_of($blk)) } else { b };
+            let f = $extra.get(i).copied().unwrap_or(0);
+            let b = if f & 1 != 0 { b.with_block(block_of($blk + i as u64)) } else { b };
+            let b = if f & 2 != 0 { b.with_api(MockApi::default().with_prefix(API_PREFIXES[i % 3])) } else { b };
+            let b = if f & 4 != 0 {
+                let mut st = MockStorage::new();
+                st.set(b"marker", &[i as u8, 2]);
+                b.with_storage(st)
+            } else {
+                b
+            };
             i += 1;
         )*
         let _ = i;
@@ -405,7 +414,7 @@ type TypedApp = App<RecBank, MockApi, MockStorage, RecCustom, WasmKeeper<SimMsg,
 
 pub const TYPED_ORDERS: u8 = 8;
 
-fn typed_app(order: u8, t: &Tagged, blocks: &[bool], blk: u64) -> TypedApp {
+fn typed_app(order: u8, t: &Tagged, blocks: &[u8], blk: u64) -> TypedApp {
     match order % TYPED_ORDERS {
         0 => typed_build!(t, blocks, blk; bank, custom, staking, distr, ibc, gov, stargate),
         1 => typed_build!(t, blocks, blk; stargate, gov, ibc, distr, staking, custom, bank),
@@ -419,9 +428,9 @@ fn typed_app(order: u8, t: &Tagged, blocks: &[bool], blk: u64) -> TypedApp {
 }
 
 #[allow(deprecated)]
-fn check_typed(order: u8, blocks: &[bool], blk: u64, viol: &mut Vec<Violation>, dig: &mut Fnv) {
+fn check_typed(order: u8, extra: &[u8], blk: u64, viol: &mut Vec<Violation>, dig: &mut Fnv) {
     let t = Tagged { bank: World::new(), custom: World::new(), staking: World::new(), distr: World::new(), ibc: World::new(), gov: World::new(), stargate: World::new() };
-    let mut app = typed_app(order, &t, blocks, blk);
+    let mut app = typed_app(order, &t, extra, blk);
     let sender = app.api().addr_make("sender");
     let msgs: Vec<(&str, CosmosMsg<SimMsg>)> = vec![
         ("bank", BankMsg::Send { to_address: sender.to_string(), amount: vec![coin(1, "x")] }.into()),
@@ -445,20 +454,38 @@ fn check_typed(order: u8, blocks: &[bool], blk: u64, viol: &mut Vec<Violation>, 
         ("gov", &t.gov, vec!["gov"]),
         ("stargate", &t.stargate, vec!["stargate", "any"]),
     ];
+    let mut fail = |d: String| {
+        if viol.is_empty() {
+            viol.push(Violation::new(P, "C20.builder_component", format!("typed order {} (extra steps after each typed step: {:?}; 1=with_block 2=with_api 4=with_storage): {}", order, extra, d)));
+        }
+    };
     for (name, w, kinds) in worlds.iter() {
         let calls = w.take_module_calls();
         let got: Vec<String> = calls.iter().map(|c| c.kind.clone()).collect();
         dig.write_str(&got.join(","));
         let exp: Vec<String> = kinds.iter().map(|k| k.to_string()).collect();
         if got != exp || calls.iter().any(|c| c.sender != sender.as_str()) {
-            if viol.is_empty() {
-                viol.push(Violation::new(P, "C20.builder_component", format!("typed order {} (with_block at {:?}): the supplied {} component saw calls {:?}, expected {:?}", order, blocks, name, got, exp)));
-            }
+            fail(format!("the supplied {} component saw calls {:?}, expected {:?}", name, got, exp));
         }
     }
-    let exp_block = if blocks.iter().take(7).any(|b| *b) { block_of(blk) } else { mock_env().block };
-    if app.block_info() != exp_block && viol.is_empty() {
-        viol.push(Violation::new(P, "C20.builder_component", format!("typed order {} (with_block at {:?}): block is {:?} expected {:?}", order, blocks, app.block_info(), exp_block)));
+    let last = |bit: u8| extra.iter().take(7).enumerate().filter(|(_, f)| **f & bit != 0).map(|(i, _)| i).last();
+    let exp_block = match last(1) {
+        Some(i) => block_of(blk + i as u64),
+        None => mock_env().block,
+    };
+    if app.block_info() != exp_block {
+        fail(format!("block is {:?} expected {:?}", app.block_info(), exp_block));
+    }
+    let exp_api = match last(2) {
+        Some(i) => MockApi::default().with_prefix(API_PREFIXES[i % 3]),
+        None => MockApi::default(),
+    };
+    if app.api().addr_make("x") != exp_api.addr_make("x") {
+        fail(format!("api makes {} expected {}", app.api().addr_make("x"), exp_api.addr_make("x")));
+    }
+    let exp_marker = last(4).map(|i| vec![i as u8, 2]);
+    if app.storage().get(b"marker") != exp_marker {
+        fail(format!("storage marker is {:?} expected {:?}", app.storage().get(b"marker"), exp_marker));
     }
 }
 
@@ -472,8 +499,8 @@ impl Engine for BuildSim {
     }
     fn budget(&self, cfg: &Cfg) -> Budget {
         match cfg.tier {
-            Tier::Quick => Budget { runs: 60_000, max_secs: 25.0 },
-            Tier::Thorough => Budget { runs: 3_000_000, max_secs: 240.0 },
+            Tier::Quick => Budget { runs: 1_500_000, max_secs: 25.0 },
+            Tier::Thorough => Budget { runs: 30_000_000, max_secs: 240.0 },
         }
     }
     fn generate(&self, rng: &mut Rng, _cfg: &Cfg) -> Case {
@@ -515,7 +542,11 @@ impl Engine for BuildSim {
                     .collect();
                 Case::Builder { steps }
             }
-            _ => Case::Typed { order: rng.below(TYPED_ORDERS as u64) as u8, block_at: (0..7).map(|_| rng.chance(1, 4)).collect(), block: 1 + rng.below(1000) },
+            _ => Case::Typed {
+                order: rng.below(TYPED_ORDERS as u64) as u8,
+                extra_at: (0..7).map(|_| if rng.chance(1, 2) { 0 } else { rng.below(8) as u8 }).collect(),
+                block: 1 + rng.below(1000),
+            },
         }
     }
     fn execute(&self, case: &Case) -> RunResult {
@@ -540,10 +571,10 @@ impl Engine for BuildSim {
                 sig.write_str(&format!("B{:?}", steps));
                 stats.nontrivial = steps.len() >= 2;
             }
-            Case::Typed { order, block_at, block } => {
-                check_typed(*order, block_at, *block, &mut viol, &mut dig);
+            Case::Typed { order, extra_at, block } => {
+                check_typed(*order, extra_at, *block, &mut viol, &mut dig);
                 stats.steps = 8;
-                sig.write_str(&format!("T{}{:?}", order, block_at));
+                sig.write_str(&format!("T{}{:?}", order, extra_at));
                 stats.nontrivial = true;
             }
         }
@@ -571,12 +602,14 @@ impl Engine for BuildSim {
                     out.push(Case::Builder { steps: drop_range(steps, s, e) });
                 }
             }
-            Case::Typed { order, block_at, block } => {
-                for i in 0..block_at.len() {
-                    if block_at[i] {
-                        let mut b = block_at.clone();
-                        b[i] = false;
-                        out.push(Case::Typed { order: *order, block_at: b, block: *block });
+            Case::Typed { order, extra_at, block } => {
+                for i in 0..extra_at.len() {
+                    for bit in [1u8, 2, 4] {
+                        if extra_at[i] & bit != 0 {
+                            let mut b = extra_at.clone();
+                            b[i] &= !bit;
+                            out.push(Case::Typed { order: *order, extra_at: b, block: *block });
+                        }
                     }
                 }
             }
@@ -584,7 +617,7 @@ impl Engine for BuildSim {
         out
     }
     fn rule(&self) -> String {
-        "one case = a seeded schedule of builder steps applied to one object: (a) ContractWrapper: up to 8 steps out of with_sudo / with_sudo_empty / with_reply / with_reply_empty / with_migrate / with_migrate_empty / with_checksum (4 distinguishable handlers each, repeats allowed; chain message type Empty or custom; base constructor new or new_with_empty), (b) AppBuilder: up to 12 steps out of all 11 with_* steps with components of the default types carrying distinguishable values (api prefix, pre-seeded storage marker, block, tagged address/checksum generators), any subset, any order, repeats, (c) AppBuilder with recording components of other types in one of 8 compiled orders with with_block inserted at seeded positions. Oracle: the built object runs the last handler / holds the last component supplied per slot (defaults otherwise), init ran once against the supplied storage and api, transcript of a fixed probe workload equals that of the canonical order of the same subset. Non-trivial = at least two steps. Distinct = the schedule itself. No faults and no clock are involved in this property; the schedule is the only thing varied.".to_string()
+        "one case = a seeded schedule of builder steps applied to one object: (a) ContractWrapper: up to 8 steps out of with_sudo / with_sudo_empty / with_reply / with_reply_empty / with_migrate / with_migrate_empty / with_checksum (4 distinguishable handlers each, repeats allowed; chain message type Empty or custom; base constructor new or new_with_empty), (b) AppBuilder: up to 12 steps out of all 11 with_* steps with components of the default types carrying distinguishable values (api prefix, pre-seeded storage marker, block, tagged address/checksum generators), any subset, any order, repeats, (c) AppBuilder with recording components of other types in one of 8 compiled orders with with_block / with_api / with_storage inserted at seeded positions. Oracle: the built object runs the last handler / holds the last component supplied per slot (defaults otherwise), init ran once against the supplied storage and api, transcript of a fixed probe workload equals that of the canonical order of the same subset. Non-trivial = at least two steps. Distinct = the schedule itself. No faults and no clock are involved in this property; the schedule is the only thing varied.".to_string()
     }
     fn assumptions(&self, _cfg: &Cfg) -> Vec<String> {
         vec![
